@@ -339,8 +339,10 @@ func (e *Engine) selectOp(g *G, cases []selCase, hasDefault bool, why string) (i
 }
 
 func (e *Engine) where(g *G) string {
-	if g.top != nil && g.top.curInstr != nil {
-		return e.prog.Fset.Position(g.top.curInstr.Pos()).String()
+	for fr := g.top; fr != nil; fr = fr.caller {
+		if fr.curInstr != nil && fr.curInstr.Pos().IsValid() {
+			return e.prog.Fset.Position(fr.curInstr.Pos()).String()
+		}
 	}
 	return "?"
 }
